@@ -190,7 +190,7 @@ def step (line : String) : String :=
     | _, _, _ => "bad-op"
   | ["sg", "dec", p, g, M] =>
     match parseNat? p, parseNat? g, parseNat? M with
-    | some p, some g, some M => toString (sgDecode p g M)
+    | some p, some g, some M => (match sgDecode? p g M with | some r => toString r | none => "ValueError")
     | _, _, _ => "bad-op"
   | "ec" :: sys :: p :: c1 :: c2 :: op :: args =>
     match parseNat? p, parseNat? c1, parseNat? c2 with
